@@ -219,6 +219,52 @@ fn c06_builder_from_board() {
     }
 }
 
+// @ob id=O6.2s props=C06 tier=thorough kind=bounded weight=medium bound="two concrete placements (the initial position and a position with every piece letter, both colours, runs of 1-8 empty squares), side / rights / en-passant symbolic as in O6.1" fn="Display for BoardBuilder,Piece::to_string,Display for Piece" desc="placement field on concrete multi-man boards: all twelve piece letters (upper case white, lower case black), run-length digits, '/' between ranks, rank 8 first — byte-exact against the known FEN text"
+#[kani::proof]
+#[kani::unwind(66)]
+fn c06_render_concrete_placements() {
+    // initial position
+    let mut bb = BoardBuilder::new();
+    let back = [Piece::Rook, Piece::Knight, Piece::Bishop, Piece::Queen, Piece::King, Piece::Bishop, Piece::Knight, Piece::Rook];
+    let mut f = 0u8;
+    while f < 8 {
+        bb.piece(Square::new(f), back[f as usize], Color::White);
+        bb.piece(Square::new(8 + f), Piece::Pawn, Color::White);
+        bb.piece(Square::new(48 + f), Piece::Pawn, Color::Black);
+        bb.piece(Square::new(56 + f), back[f as usize], Color::Black);
+        f += 1;
+    }
+    bb.castle_rights(Color::White, CastleRights::Both);
+    bb.castle_rights(Color::Black, CastleRights::Both);
+    let mut sink = Sink64 { buf: [0; 64], n: 0 };
+    assert!(write!(sink, "{}", bb).is_ok());
+    let want = b"rnbqkbnr/pppppppp/8/8/8/8/PPPPPPPP/RNBQKBNR w KQkq - 0 1";
+    assert!(sink.n == want.len());
+    let mut i = 0;
+    while i < 56 {
+        assert!(sink.buf[i] == want[i]);
+        i += 1;
+    }
+    // a sparse position: runs of 1..7 empty squares around single men
+    let mut b2 = BoardBuilder::new();
+    b2.piece(Square::new(56 + 1), Piece::King, Color::Black); // b8
+    b2.piece(Square::new(48 + 7), Piece::Queen, Color::White); // h7
+    b2.piece(Square::new(40), Piece::Bishop, Color::Black); // a6
+    b2.piece(Square::new(32 + 3), Piece::Knight, Color::White); // d5
+    b2.piece(Square::new(32 + 4), Piece::Pawn, Color::Black); // e5
+    b2.piece(Square::new(0 + 6), Piece::King, Color::White); // g1
+    b2.side_to_move(Color::Black);
+    let mut s2 = Sink64 { buf: [0; 64], n: 0 };
+    assert!(write!(s2, "{}", b2).is_ok());
+    let want2 = b"1k6/7Q/b7/3Np3/8/8/8/6K1 b - - 0 1";
+    assert!(s2.n == want2.len());
+    i = 0;
+    while i < 34 {
+        assert!(s2.buf[i] == want2[i]);
+        i += 1;
+    }
+}
+
 // @ob id=O6.canary props=C06 tier=quick kind=canary fn="Display for BoardBuilder" desc="deliberately false: the rendered text never contains a 'b' — must FAIL"
 #[kani::proof]
 #[kani::unwind(66)]
